@@ -286,7 +286,12 @@ P("C14", ["LC.Props.C14"],
   "PARTIAL: the skeleton of multipleMatch regenerated from the AST is checked (skeleton_current) to be the locked "
   "check-and-set shape for which protocol_no_race / protocol_at_most_one_write / protocol_reads_agree (C09 file) hold for every "
   "number of threads and interleaving; racy_unlocked_check / prefix_skeleton_rejected show the pre-repair shape races. "
-  "Everything outside the skeleton is monitored by the race detector only.",
+  "For the map `values` under the RWMutex: the skeletons of ALL functions and goroutine literals of the package that mention "
+  "`values`/`muValues` are regenerated from the AST (LC/Gen/V1Locks) and must pass the static checker LC.RW.accepts "
+  "(values_skeletons_accepted, kernel evaluation); accepted_calls_ok proves the checker sound (every path of an accepted "
+  "skeleton is well locked: branches, loops, early returns, deferred unlocks) and rw_no_race proves that well-locked threads "
+  "never race on the location, for every number of threads and every interleaving the lock allows. "
+  "Everything outside these skeletons (matcher queue, Go memory model, extractor faithfulness) is monitored by the race detector.",
   ["Go memory model outside the model; race detector sees executed schedules"], trusted=V1_TB, regen=["v1protocol"])
 
 P("C15", ["LC.Props.C15"],
